@@ -219,8 +219,9 @@ type Prop struct {
 	// Judge examines one input under every (ids, cfg) of the scope.
 	Judge func(sc *Scope, rings [][]ref.P, acc *Acc) []Problem
 	Rule  string
-	// Pinned inputs (always run first)
-	Pinned []Case
+	// Pinned inputs (always run first); PinnedFrom names files replays/pinned/<id>.json
+	Pinned     []Case
+	PinnedFrom []string
 	// Finish, if set, replaces the default evidence writer (multi-stage checks)
 	Finish func(r *ev.Run, c *finalCov)
 	// Extras: additional non-lattice enumerations, sharded by (shardI, shardN)
@@ -291,7 +292,17 @@ func runProp(p *Prop) {
 
 	// pinned inputs first (shard 0 only)
 	if r.ShardI == 0 {
-		for _, c := range p.Pinned {
+		pinned := p.Pinned
+		for _, id := range p.PinnedFrom {
+			if b, err := os.ReadFile(filepath.Join(ev.Root, "replays", "pinned", id+".json")); err == nil {
+				var cs []Case
+				if err := json.Unmarshal(b, &cs); err != nil {
+					ev.HarnessError("pinned inputs of %s unreadable: %v", id, err)
+				}
+				pinned = append(pinned, cs...)
+			}
+		}
+		for _, c := range pinned {
 			g := c.Grid.Build()
 			sc := &Scope{Name: "pinned:" + c.Scope, GS: c.Grid, G: g, IDSets: [][]int{c.IDs}, Cfgs: []snap.Config{c.Cfg}}
 			acc := newAcc()
